@@ -3,6 +3,7 @@ import PkgModel.PyMeta
 import PkgModel.PyMetaRt
 import PkgProofs.Lemmas.PyRt
 import PkgProofs.Lemmas.PyStr
+import PkgProofs.Lemmas.SrcLoops
 /-!
 # Translated source of `packaging.metadata` (`_parse_keywords`, `_parse_project_urls`, `_Validator._process_*`) = the model
 
@@ -145,12 +146,6 @@ theorem partition_pair (p : Str) :
     subst this
     exact ⟨a, [], [], by simp [h1], by simp [h2, strip_nil]⟩
   · exact ⟨a, b, [44], by simp [h1], by simp [h2]⟩
-
-/-- the last component of the loop state (the local declared last) whatever the number of other mutable locals -/
-class LastPy (σ : Type) where
-  last : σ → PyVal
-instance instLastPyPyVal : LastPy PyVal := ⟨fun v => v⟩
-instance instLastPyProd {α β : Type} [LastPy β] : LastPy (α × β) := ⟨fun p => LastPy.last p.2⟩
 
 def dictOf (acc : List (Str × Str)) : PyVal := .dict (acc.map fun p => (.str p.1, .str p.2))
 
